@@ -250,6 +250,8 @@ func writeValue(buf *bytes.Buffer, v value) {
 		buf.WriteString("<sym " + clip(v.t, 80) + ">")
 	case symStr:
 		buf.WriteString("<sym " + clip(v.t, 80) + ">")
+	case symAtom:
+		buf.WriteString("<atom " + clip(v.t, 80) + ">")
 	case bigv:
 		buf.WriteString("<big " + clip(v.t, 80) + ">")
 
